@@ -609,7 +609,8 @@ case("c05-terminal-check-after-canceled", "C05", "mutant", [(H + "complete_workf
             return WorkflowStatus.TERMINAL
 """)], "C05.R1")
 case("c05-unbounded-completeworkflow-requeue", "C05", "mutant", [(H + "complete_workflow.py", "        if retry_count >= max_retries:", "        if False and retry_count >= max_retries:")], "C05.R1")
-case("c05-running-stages-not-cancelled", "C05", "mutant", [(H + "complete_workflow.py", "            if status != WorkflowStatus.SUCCEEDED:\n                running_stages", "            if status == WorkflowStatus.TERMINAL:\n                running_stages")], "C05.R4")
+case("c05-running-stages-not-cancelled", "C05", "mutant", [(H + "complete_workflow.py", "            if status != WorkflowStatus.SUCCEEDED:\n                # Also stages that are parked", "            if status == WorkflowStatus.TERMINAL:\n                # Also stages that are parked")], "C05.R4")
+case("c05-parked-stages-not-cancelled", "C05", "mutant", [(H + "complete_workflow.py", "                    if s.status in (WorkflowStatus.RUNNING, WorkflowStatus.SUSPENDED, WorkflowStatus.PAUSED)", "                    if s.status == WorkflowStatus.RUNNING")], "C05.R4")
 case("c05-signal-resume-without-continuation", "C05", "mutant", [(H + "signal_stage.py", """                    else:
                         # No suspended task found - re-start the stage
                         txn.push_message(
